@@ -81,3 +81,16 @@ CHECKS["C25"] = {"pkg": "net", "extra_pkgs": [], "shards": 8, "fuzz": [{"target"
     "technique": "property-based testing (rapid field-by-field generator) of IntroductionMessage.Verify against an independent parser of the Extra layout; message-order state machine against a real in-process daemon over loopback; native fuzzing of Extra in thorough",
     "text": "Generated-input search: introduction messages are assembled field by field with each documented condition independently satisfied or broken (self mirror, protocol version, pubkey, burn factor, max size, precision, user agent grammar and length, genesis hash length), cut at arbitrary positions or random; Verify must accept exactly when no condition is broken and never panic.",
     "note": "user-agent verdicts are asserted only for strings whose status under the documented grammar is unambiguous; sanitised variants are exercised for crashes only"}
+
+LT = 'model-based stateful property testing (rapid state machine) of real visor nodes on bolt files against an independent reference ledger model'
+LN = 'trusted: harness/internal/ref/{ledger,rules,txref,curve}; signatures of generated transactions are made with the code under test and judged by the textbook curve; bolt files live on /dev/shm'
+CHECKS["C01"] = {"pkg": "ledger", "shards": 14, "timeout_quick": 900, "timeout_thorough": 3000, "technique": LT, "note": LN,
+    "text": "Generated histories of injections, publisher blocks, deliveries, crafted (valid and mutated) signed blocks, pool maintenance and restarts on a publisher and 1-2 followers, with genesis volumes up to 2^64-1; after every action the coin sum of the unspent set (math/big) must equal the genesis volume and the full unspent set must equal the model's, and every transaction the node accepts into a block has passed the model's exact in==out rule."}
+CHECKS["C02"] = {"pkg": "ledger", "shards": 14, "timeout_quick": 900, "timeout_thorough": 3000, "technique": LT, "note": LN,
+    "text": "Same state machine with crafted blocks weighted up: double spends inside a block, across blocks, of spent outputs, of outputs created in the same block, duplicate outputs; the node's unspent set (ids, bodies, creation time and sequence) must equal created-minus-spent of the model after every step and block acceptance must equal the model's verdict."}
+CHECKS["C04"] = {"pkg": "ledger", "shards": 14, "timeout_quick": 900, "timeout_thorough": 3000, "technique": LT, "note": LN,
+    "text": "Crafted next blocks with one of 19 header mutations (re-signed with the publisher key, so only the structural rule can reject them) or 8 body mutations are submitted at random points of random histories to publisher and followers; acceptance must equal the model's rule set, a rejection must leave chain, unspent set, pool and stored blocks identical, every stored header must verify against its stored signature, and the node's own CheckDatabase must pass at the end of every history."}
+CHECKS["C05"] = {"pkg": "ledger", "shards": 14, "timeout_quick": 900, "timeout_thorough": 3000, "technique": LT, "note": LN,
+    "text": "Pools reached by random injection histories (conflicting spends, soft-invalid and later-hard-invalid entries, more bytes than the block limit); the block the publisher assembles must contain exactly the reference selection (eligible by hard+soft rules, ordered by saturating fee*1024/size descending then hash ascending, cut at the size limit, first of each conflict class) in that order and must be acceptable to an independent node model."}
+CHECKS["C06"] = {"pkg": "ledger", "shards": 14, "timeout_quick": 900, "timeout_thorough": 3000, "technique": LT, "note": LN,
+    "text": "Interleavings of foreign/user injections (incl. re-injection), block acceptance, refresh and invalid-removal passes and restarts; admission must equal the model's hard (foreign) / hard+soft+user (user) verdict with the right error type, re-injection must report known and not duplicate, block transactions must leave the pool, validity flags and pool contents must equal the model after every step."}
